@@ -1844,6 +1844,38 @@ def gen_sweep(rng, keys, depth=0, nonempty=False):
     return ("list", [{k_: float(rng.choice(SWEEP_VALUES)) if rng.random() < 0.8 else int(rng.integers(0, 9)) for k_ in ks} for _ in range(rows)])
 
 
+def sweep_size(s):
+    """number of assignments, computed without enumerating"""
+    k = s[0]
+    if k == "unit":
+        return 1
+    if k == "points":
+        return len(s[2])
+    if k == "linspace":
+        return s[4]
+    if k == "list":
+        return len(s[1])
+    sizes = [sweep_size(c) for c in s[1]]
+    if k == "product":
+        n = 1
+        for x in sizes:
+            n *= x
+        return n
+    if k == "zip":
+        return min(sizes) if sizes else 0
+    if k == "ziplongest":
+        return max(sizes) if sizes else 0
+    return sum(sizes)
+
+
+def gen_bounded_sweep(rng, keys, limit=1500):
+    for _ in range(20):
+        spec = gen_sweep(rng, keys)
+        if sweep_size(spec) <= limit:
+            return spec
+    return gen_leaf(rng, keys.new())
+
+
 def has_unit_node(s):
     if s[0] == "unit":
         return True
@@ -1993,7 +2025,7 @@ def sec_sweeps(ctx, rng, case):
         kind = 0  # the deterministic edges need only a few repetitions
     keys = _Keys(rng)
     if kind <= 5:
-        spec = gen_sweep(rng, keys)
+        spec = gen_bounded_sweep(rng, keys)
         f64 = bool(rng.random() < 0.4)
         try:
             sw = b_sweep(spec, rng)
@@ -2011,7 +2043,7 @@ def sec_sweeps(ctx, rng, case):
         form = int(rng.integers(5))
         f64 = bool(rng.random() < 0.4)
         compress = bool(rng.random() < 0.5)
-        specs = [gen_sweep(rng, keys) for _ in range(nsw)]
+        specs = [gen_bounded_sweep(rng, keys, 500) for _ in range(nsw)]
         try:
             built_sweeps = [b_sweep(s, rng) for s in specs]
         except (ValueError, TypeError) as e:
